@@ -43,8 +43,8 @@ KONST = 1.5
 
 '''
 
-ARG_TYPES = {'x': 'fp.Real', 'y': 'fp.Real', 'n': 'fp.Real', 'xs': 'list[fp.Real]'}
-ARG_ORDER = ('x', 'y', 'n', 'xs')
+ARG_TYPES = {'x': 'fp.Real', 'y': 'fp.Real', 'n': 'fp.Real', 'xs': 'list[fp.Real]', 'c': 'bool'}
+ARG_ORDER = ('x', 'y', 'n', 'xs', 'c')
 
 
 class Prog:
@@ -478,7 +478,43 @@ def family_M(tier: str) -> Iterator[Prog]:
                 yield make('M', wrap([f'r = {sel}', f'q = {post}'], w) + ['return (r, q)'], {'x', 'y'}, 'M-select')
 
 
-FAMILIES = {'A': family_A, 'B': family_B, 'L': family_L, 'H': family_H, 'M': family_M}
+# ----------------------------------------------------------------------
+# R: early scalar return, then a statement that constrains len(xs)
+
+R_PRE = [('sum', ['s = sum(xs)'], False),
+         ('acc', ['s = 0', 'for e in xs:', '    s = s + e'], True),
+         ('cnt', ['s = 0', 'for i in range(len(xs)):', '    s = s + 1'], True)]
+R_WRAPS = ['fp.REAL', None, 'fp.INTEGER']
+R_KS = (1, 2)
+# (ctx, element format of xs); `c` is a bool and has no format
+R_CELLS_QUICK = [('REAL', 'fx'), ('CB', 'fx'), ('REAL', 'fu'), ('REAL', 'int')]
+R_CELLS_MORE = [('CA', 'fa'), ('REAL', 'fa'), ('CX', 'fx'), ('CM', 'fu'), ('INT', 'fx')]
+
+
+def family_R(tier: str) -> Iterator[Prog]:
+    """`if c: return <scalar over xs>` ; top-level `assert len(xs) == K` | strict zip of xs with a K-literal ; return.
+    The length constraint only holds on executions that did NOT return early, so the scalar computed over xs must be
+    bounded for every length on the early-return path."""
+    for name, pre, fix in R_PRE:
+        for w in R_WRAPS:
+            body = wrap(pre, w)
+            for K in R_KS:
+                lit = '[' + ', '.join('0' for _ in range(K)) + ']'
+                pins = [('assert', [f'assert len(xs) == {K}']),
+                        ('zip', [f'zs = [p + q for p, q in zip(xs, {lit})]'])]
+                for pname, pin in pins:
+                    tag = f'R-{name}-{pname}'
+                    # the scalar is computed first, returned early as is / inside a tuple
+                    for ret in ('s', '(s, 0)'):
+                        last = 's' if ret == 's' else '(s, 1)'
+                        yield make('R', body + ['if c:', f'    return {ret}'] + pin + [f'return {last}'], {'xs', 'c'}, tag,
+                                   fixpoint=fix)
+                    # the scalar is computed inside the early-return arm only
+                    yield make('R', ['if c:'] + indent(body + ['return s']) + pin + ['return xs[0]'], {'xs', 'c'}, tag,
+                               fixpoint=fix)
+
+
+FAMILIES = {'A': family_A, 'B': family_B, 'L': family_L, 'H': family_H, 'M': family_M, 'R': family_R}
 
 
 # ----------------------------------------------------------------------
@@ -506,6 +542,9 @@ def cells(prog: Prog, tier: str):
     out = []
     if prog.tag == 'M-select':
         return [(c, {'x': fx_, 'y': fy_}) for c, fx_, fy_ in SELECT_CELLS]
+    if prog.fam == 'R':
+        rc = R_CELLS_QUICK + (R_CELLS_MORE if tier != 'quick' else [])
+        return [(c, {'xs': fl, 'c': 'bool'}) for c, fl in rc]
     base = list(CELLS_QUICK)
     lean = tier == 'quick' and (prog.fam == 'B' or prog.tag == 'M-set')
     if lean:
@@ -528,7 +567,7 @@ def cells(prog: Prog, tier: str):
 
 
 def space(tier: str):
-    return [(k, (lambda k=k: FAMILIES[k](tier))) for k in ('A', 'B', 'L', 'H', 'M')]
+    return [(k, (lambda k=k: FAMILIES[k](tier))) for k in ('A', 'B', 'L', 'H', 'M', 'R')]
 
 
 if __name__ == '__main__':
